@@ -92,3 +92,33 @@ Proof.
   unfold evs, ms in *. cbn [map tl snd] in *.
   rewrite (exact_f X bodies s0 now p1 _ l1 t m l2 Hb Hne Hwf Hg H1 Hall Hsplit Hnc Hc). reflexivity.
 Qed.
+
+(* C05 at byte level: a stream of valid frames whose decoded messages are a transfer history as in
+   C05_exact, cut into reads in any way (all processed at one instant): parse delivers exactly one
+   message flagged complete for X, with the concatenation of the bodies *)
+Theorem segmentation_exact : forall X bodies fs chunks now p1 l1 t m l2,
+  Forall vframe fs -> concat chunks = concat fs ->
+  bodies <> [] -> Forall nonempty bodies ->
+  good_pkt X (len bodies) bodies p1 -> m_no p1 = 1 ->
+  let evs := map (fun rm => (now, EvMsg (snd rm))) (map decode_ok fs) in
+  hd_error evs = Some (now, EvMsg p1) ->
+  Forall (fun te => ev_ok X (len bodies) bodies (snd te)) (tl evs) ->
+  evs = l1 ++ (t, EvMsg m) :: l2 ->
+  ~ covers (len bodies) (numbers X (len bodies) l1) ->
+  covers (len bodies) (numbers X (len bodies) (l1 ++ [(t, EvMsg m)])) ->
+  map snd (filter (fun c => fst c =? X) (completed_msgs (fst (feed_all now pst0 chunks)))) = [concat bodies] /\
+  snd (feed_all now pst0 chunks) = repeat None (length chunks).
+Proof.
+  intros X bodies fs chunks now p1 l1 t m l2 Hfs Hcat Hb Hne Hg H1 evs Hhd Hok Hsplit Hnc Hc.
+  rewrite (segmentation_subpkg fs chunks now Hfs Hcat). cbn [fst snd]. split; [|reflexivity].
+  destruct (cp_loop_is_run now (map decode_ok fs) [] eq_refl) as [_ ->]. fold evs.
+  rewrite <- (completions_outs X _ 0). change (completions_from 0 X) with (completions X).
+  destruct evs as [|e0 rest] eqn:E; [discriminate|]. cbn [hd_error] in Hhd. injection Hhd as ->.
+  cbn [tl] in Hok.
+  assert (Hall : Forall (ok_after X bodies now) rest).
+  { assert (Ht : Forall (fun te => fst te = now) ((now, EvMsg p1) :: rest)).
+    { rewrite <- E. unfold evs. rewrite Forall_forall. intros te Hte. apply in_map_iff in Hte. destruct Hte as (rm & <- & _). reflexivity. }
+    inversion Ht as [|x l _ Ht']; subst. rewrite Forall_forall in *. intros te Hte. split; [|now apply Hok].
+    rewrite (Ht' te Hte). lia. }
+  rewrite (exact_f X bodies [] now p1 rest l1 t m l2 Hb Hne wf_nil Hg H1 Hall Hsplit Hnc Hc). reflexivity.
+Qed.
